@@ -1,4 +1,130 @@
+/-
+C18 — property theorems (statements fixed by the architect; do not weaken).  PARTIAL: only the
+rotated-analysis coordinate clause is decided here; the ridge decoding is oracle-only.
+Helper lemmas: PeroVerif/Lemmas/Rot90.lean.
+-/
 import PeroVerif.Model.Rot90
+import PeroVerif.Lemmas.Rot90
+
 namespace C18
-theorem placeholder : (1:Nat) = 1 := rfl
+open Rot
+
+/-- the rotated image has the transposed shape for odd rotations -/
+theorem rotShape_spec (rot H W : Nat) :
+    rotShape rot H W = (if rot % 2 = 1 then (W, H) else (H, W)) := rfl
+
+/-- the source pixel of every pixel of the rotated image lies inside the original image -/
+theorem rotSrc_in_range (rot H W i j : Nat) (hi : i < (rotShape rot H W).1) (hj : j < (rotShape rot H W).2) :
+    (rotSrc rot H W i j).1 < H ∧ (rotSrc rot H W i j).2 < W := by
+  rcases mod4_cases rot with h | h | h | h
+  · rw [rotShape_even (by omega)] at hi hj
+    rw [rotSrc_mod0 h]; exact ⟨hi, hj⟩
+  · rw [rotShape_odd (by omega)] at hi hj
+    rw [rotSrc_mod1 h]; dsimp only at hi hj ⊢; omega
+  · rw [rotShape_even (by omega)] at hi hj
+    rw [rotSrc_mod2 h]; dsimp only at hi hj ⊢; omega
+  · rw [rotShape_odd (by omega)] at hi hj
+    rw [rotSrc_mod3 h]; dsimp only at hi hj ⊢; omega
+
+/-- `np.rot90` is a bijection of pixels: distinct rotated pixels come from distinct original pixels -/
+theorem rotSrc_injective (rot H W i j i' j' : Nat)
+    (hi : i < (rotShape rot H W).1) (hj : j < (rotShape rot H W).2)
+    (hi' : i' < (rotShape rot H W).1) (hj' : j' < (rotShape rot H W).2)
+    (h : rotSrc rot H W i j = rotSrc rot H W i' j') : i = i' ∧ j = j' := by
+  rcases mod4_cases rot with hm | hm | hm | hm
+  · rw [rotSrc_mod0 hm, rotSrc_mod0 hm] at h
+    exact ⟨congrArg Prod.fst h, congrArg Prod.snd h⟩
+  · rw [rotShape_odd (by omega)] at hi hj hi' hj'
+    rw [rotSrc_mod1 hm, rotSrc_mod1 hm] at h
+    have h1 := congrArg Prod.fst h
+    have h2 := congrArg Prod.snd h
+    dsimp only at hi hj hi' hj' h1 h2
+    omega
+  · rw [rotShape_even (by omega)] at hi hj hi' hj'
+    rw [rotSrc_mod2 hm, rotSrc_mod2 hm] at h
+    have h1 := congrArg Prod.fst h
+    have h2 := congrArg Prod.snd h
+    dsimp only at hi hj hi' hj' h1 h2
+    omega
+  · rw [rotShape_odd (by omega)] at hi hj hi' hj'
+    rw [rotSrc_mod3 hm, rotSrc_mod3 hm] at h
+    have h1 := congrArg Prod.fst h
+    have h2 := congrArg Prod.snd h
+    dsimp only at hi hj hi' hj' h1 h2
+    omega
+
+/-- When the page is analysed in a rotated orientation, every returned coordinate refers to the
+original, un-rotated image within one pixel (each axis): for every `H, W ≥ 1` (non-square included),
+every rotation 0..3 and every pixel `(i, j)` of the rotated image, `rotate_layout` applied to the
+pixel's coordinates `(x', y') = (j, i)` lands within 1 of the original pixel's `(col, row)`. -/
+theorem rotate_within_one_pixel (rot H W i j : Nat) (hr : rot < 4)
+    (hi : i < (rotShape rot H W).1) (hj : j < (rotShape rot H W).2) :
+    let src := rotSrc rot H W i j
+    let q := rotateLayout rot (rotShape rot H W) ((j : Int), (i : Int))
+    (q.1 - (src.2 : Int)).natAbs ≤ 1 ∧ (q.2 - (src.1 : Int)).natAbs ≤ 1 := by
+  match rot, hr with
+  | 0, _ =>
+    intro src q
+    have hs : src = (i, j) := rotSrc_mod0 rfl H W i j
+    have hq : q = ((j : Int), (i : Int)) := rfl
+    rw [hs, hq]; dsimp only; omega
+  | 1, _ =>
+    intro src q
+    rw [rotShape_odd rfl] at hi hj
+    have hs : src = (j, W - 1 - i) := rotSrc_mod1 rfl H W i j
+    have hq : q = ((W : Int) - (i : Int), (j : Int)) := rfl
+    rw [hs, hq]; dsimp only at hi hj ⊢; omega
+  | 2, _ =>
+    intro src q
+    rw [rotShape_even rfl] at hi hj
+    have hs : src = (H - 1 - i, W - 1 - j) := rotSrc_mod2 rfl H W i j
+    have hq : q = ((W : Int) - (j : Int), (H : Int) - (i : Int)) := rfl
+    rw [hs, hq]; dsimp only at hi hj ⊢; omega
+  | 3, _ =>
+    intro src q
+    rw [rotShape_odd rfl] at hi hj
+    have hs : src = (H - 1 - j, i) := rotSrc_mod3 rfl H W i j
+    have hq : q = ((i : Int), (H : Int) - (j : Int)) := rfl
+    rw [hs, hq]; dsimp only at hi hj ⊢; omega
+
+/-- … and the bound is tight: the code uses `W - x` where the exact inverse is `W - 1 - x` -/
+theorem rotate_offset_exact (H W i j : Nat) (hi : i < (rotShape 1 H W).1) (hj : j < (rotShape 1 H W).2) :
+    (rotateLayout 1 (rotShape 1 H W) ((j : Int), (i : Int))).1 = ((rotSrc 1 H W i j).2 : Int) + 1 := by
+  have _ := hj  -- `hj` is not needed for this clause
+  rw [rotShape_odd rfl] at hi
+  have hs : rotSrc 1 H W i j = (j, W - 1 - i) := rotSrc_mod1 rfl H W i j
+  have hq : rotateLayout 1 (rotShape 1 H W) ((j : Int), (i : Int)) = ((W : Int) - (i : Int), (j : Int)) := rfl
+  rw [hs, hq]; dsimp only at hi ⊢; omega
+
+/-- un-rotated analysis leaves coordinates untouched -/
+theorem rotate_zero (shape : Nat × Nat) (p : Int × Int) : rotateLayout 0 shape p = p := rfl
+
+/-- the map is affine with unit steps: neighbouring points stay neighbours (so baselines, outlines and
+region polygons keep their shape) -/
+theorem rotate_affine (rot : Nat) (shape : Nat × Nat) (p d : Int × Int) (hr : rot < 4) :
+    ∃ d' : Int × Int, rotateLayout rot shape (p.1 + d.1, p.2 + d.2) =
+      ((rotateLayout rot shape p).1 + d'.1, (rotateLayout rot shape p).2 + d'.2) ∧
+      d'.1 * d'.1 + d'.2 * d'.2 = d.1 * d.1 + d.2 * d.2 := by
+  obtain ⟨p1, p2⟩ := p
+  obtain ⟨d1, d2⟩ := d
+  match rot, hr with
+  | 0, _ => exact ⟨(d1, d2), rfl, rfl⟩
+  | 1, _ =>
+    refine ⟨(-d2, d1), ?_, ?_⟩
+    · simp only [rotateLayout]
+      refine Prod.ext ?_ rfl
+      dsimp only; omega
+    · dsimp only; rw [Int.neg_mul_neg, Int.add_comm]
+  | 2, _ =>
+    refine ⟨(-d1, -d2), ?_, ?_⟩
+    · simp only [rotateLayout]
+      refine Prod.ext ?_ ?_ <;> (dsimp only; omega)
+    · dsimp only; rw [Int.neg_mul_neg, Int.neg_mul_neg]
+  | 3, _ =>
+    refine ⟨(d2, -d1), ?_, ?_⟩
+    · simp only [rotateLayout]
+      refine Prod.ext rfl ?_
+      dsimp only; omega
+    · dsimp only; rw [Int.neg_mul_neg, Int.add_comm]
+
 end C18
